@@ -31,7 +31,7 @@ type cgSend struct {
 	rname  string
 	rinit  string // field initialised in the reply literal ("Data<-p") or ""
 	rets   []string
-	putErr bool
+	putErr string // "" | "always" (fidPool.Put(id)) | "refused" (releaseFID(id, err))
 }
 
 type cgMethod struct {
@@ -246,22 +246,28 @@ func (m *cgMethod) rets(r *Repo, ret *ast.ReturnStmt) []string {
 	return out
 }
 
-// errBlock checks an `err != nil` body: optional fidPool.Put(id), then return.
-func (m *cgMethod) errBlock(r *Repo, b *ast.BlockStmt) (bool, error) {
-	put := false
+// errBlock checks an `err != nil` body: optional fidPool.Put(id) / releaseFID(id, err), then return.
+func (m *cgMethod) errBlock(r *Repo, b *ast.BlockStmt) (string, error) {
+	put := ""
 	for i, st := range b.List {
-		if es, ok := st.(*ast.ExprStmt); ok && cgExprString(r, es.X) == "c.client.fidPool.Put(id)" || ok && cgExprString(r, es.X) == "c.fidPool.Put(id)" {
-			put = true
-			continue
+		if es, ok := st.(*ast.ExprStmt); ok {
+			switch cgExprString(r, es.X) {
+			case "c.client.fidPool.Put(id)", "c.fidPool.Put(id)":
+				put = "always"
+				continue
+			case "c.client.releaseFID(id, err)", "c.releaseFID(id, err)":
+				put = "refused"
+				continue
+			}
 		}
 		if ret, ok := st.(*ast.ReturnStmt); ok && i == len(b.List)-1 {
 			last := cgExprString(r, ret.Results[len(ret.Results)-1])
 			if last != "err" {
-				return false, r.Refuse(ret.Pos(), "error path of %s does not return err", m.name)
+				return "", r.Refuse(ret.Pos(), "error path of %s does not return err", m.name)
 			}
 			continue
 		}
-		return false, r.Refuse(st.Pos(), "statement %s on the error path of %s", cgExprString(r, st), m.name)
+		return "", r.Refuse(st.Pos(), "statement %s on the error path of %s", cgExprString(r, st), m.name)
 	}
 	return put, nil
 }
@@ -422,22 +428,30 @@ func (m *cgMethod) block(r *Repo, list []ast.Stmt, cond string) error {
 // methods whose bodies are compositions: emitted as text
 var cgTextual = map[string]bool{"GetXattr": true, "ListXattrs": true, "xattrWalkRead": true, "ReadAt": true, "WriteAt": true, "Renamed": true, "newFile": true}
 
-func cgWithdraws(r *Repo, fd *ast.FuncDecl) (bool, error) {
+// cgSendRecv: (withdraws on send error, does not recycle a withdrawn response, registers pending before send)
+func cgSendRecv(r *Repo, fd *ast.FuncDecl) (bool, bool, bool, error) {
 	list := fd.Body.List
+	reg := -1
 	for i, st := range list {
+		if cgExprString(r, st) == "c.pending[tag(t)] = resp" {
+			reg = i
+		}
 		if cgExprString(r, st) != "err := send(c.log, c.conn, tag(t), tm)" {
 			continue
 		}
-		// next: c.sendMu.Unlock(); if err != nil { ... }
+		before := reg >= 0 && reg < i
 		for _, nx := range list[i+1:] {
 			is, ok := nx.(*ast.IfStmt)
 			if !ok {
-				continue
+				if cgExprString(r, nx) == "c.sendMu.Unlock()" {
+					continue
+				}
+				return false, false, false, r.Refuse(nx.Pos(), "sendRecv: statement %s between send and its error test", cgExprString(r, nx))
 			}
 			if !cgIsErrNotNil(is.Cond) {
-				return false, r.Refuse(is.Pos(), "sendRecv: statement after send")
+				return false, false, false, r.Refuse(is.Pos(), "sendRecv: statement after send")
 			}
-			del, drain := false, false
+			del, drain, keep := false, false, false
 			for _, b := range is.Body.List {
 				t := cgExprString(r, b)
 				switch {
@@ -446,18 +460,59 @@ func cgWithdraws(r *Repo, fd *ast.FuncDecl) (bool, error) {
 					del = true
 				case t == "select { case <-resp.done: default: }":
 					drain = true
+				case t == "recycle = false":
+					keep = true
 				case strings.HasPrefix(t, "return fmt.Errorf(\"send: %w\", err)"):
 				default:
-					return false, r.Refuse(b.Pos(), "sendRecv send-error path: %s", t)
+					return false, false, false, r.Refuse(b.Pos(), "sendRecv send-error path: %s", t)
 				}
 			}
 			if del != drain {
-				return false, r.Refuse(is.Pos(), "sendRecv send-error path withdraws without draining (or the reverse)")
+				return false, false, false, r.Refuse(is.Pos(), "sendRecv send-error path withdraws without draining (or the reverse)")
 			}
-			return del, nil
+			if keep {
+				// recycle must guard the deferred responsePool.Put
+				ok := false
+				for _, st := range list {
+					if cgExprString(r, st) == "defer func() { if recycle { responsePool.Put(resp) } }()" {
+						ok = true
+					}
+				}
+				if !ok {
+					return false, false, false, r.Refuse(is.Pos(), "sendRecv: recycle flag does not guard responsePool.Put")
+				}
+			}
+			return del, keep, before, nil
 		}
 	}
-	return false, r.Refuse(fd.Pos(), "sendRecv: send call not found")
+	return false, false, false, r.Refuse(fd.Pos(), "sendRecv: send call not found")
+}
+
+// cgHandleOne: does the completion branch complete only the response the lookup accepted the frame for?
+func cgHandleOne(r *Repo, fd *ast.FuncDecl) (bool, error) {
+	txt := cgExprString(r, fd.Body)
+	if !strings.Contains(txt, "resp := c.pending[t] delete(c.pending, t)") && !strings.Contains(txt, "resp := c.pending[t] if resp == nil || resp != found { c.pendingMu.Unlock() return } delete(c.pending, t)") {
+		return false, r.Refuse(fd.Pos(), "handleOne: completion branch not recognised")
+	}
+	if !strings.Contains(txt, "for _, resp := range c.pending { resp.done <- err } c.pending = make(map[tag]*response)") {
+		return false, r.Refuse(fd.Pos(), "handleOne: broadcast branch not recognised")
+	}
+	chk := strings.Contains(txt, "resp := c.pending[t] if resp == nil || resp != found { c.pendingMu.Unlock() return } delete(c.pending, t)")
+	if chk && !(strings.Contains(txt, "var found *response") && strings.Contains(txt, "resp := c.pending[t] c.pendingMu.Unlock() found = resp")) {
+		return false, r.Refuse(fd.Pos(), "handleOne: found is not the response the lookup returned")
+	}
+	return chk, nil
+}
+
+// cgReleaseFID: "" (no such helper) | "refused" (Put only when err is a linux.Errno)
+func cgReleaseFID(r *Repo, fd *ast.FuncDecl) (string, error) {
+	if fd == nil {
+		return "", nil
+	}
+	if cgExprString(r, fd.Body) == "{ if _, refused := err.(linux.Errno); refused { c.fidPool.Put(id) } }" {
+		return "refused", nil
+	}
+	return "", r.Refuse(fd.Pos(), "releaseFID body %s", cgExprString(r, fd.Body))
 }
 
 func runClientGen(r *Repo) (string, error) {
@@ -476,6 +531,9 @@ func runClientGen(r *Repo) (string, error) {
 			continue
 		}
 		rt := recvTypeName(fd.Recv.List[0].Type)
+		if rt == "Client" && fd.Name.Name == "releaseFID" {
+			continue
+		}
 		if rt != "clientFile" && !(rt == "Client" && fd.Name.Name == "Attach") && !(rt == "Client" && fd.Name.Name == "newFile") {
 			return "", r.Refuse(fd.Pos(), "method of unexpected receiver %s in client_file.go", rt)
 		}
@@ -524,7 +582,19 @@ func runClientGen(r *Repo) (string, error) {
 	if !ok {
 		return "", fmt.Errorf("Client.sendRecv not found")
 	}
-	wd, err := cgWithdraws(r, sr)
+	wd, keep, regFirst, err := cgSendRecv(r, sr)
+	if err != nil {
+		return "", err
+	}
+	ho, ok := decls["Client.handleOne"]
+	if !ok {
+		return "", fmt.Errorf("Client.handleOne not found")
+	}
+	chk, err := cgHandleOne(r, ho)
+	if err != nil {
+		return "", err
+	}
+	rel, err := cgReleaseFID(r, decls["Client.releaseFID"])
 	if err != nil {
 		return "", err
 	}
@@ -549,7 +619,8 @@ Inductive gcond := GAlways | GWhen (pred : string) | GUnless (pred : string).
 
 Record gsend := mkgs {
   gs_cond : gcond; gs_t : string; gs_fields : list (string * gsrc);
-  gs_r : string; gs_rinit : string; gs_rets : list string; gs_put_on_err : bool }.
+  gs_r : string; gs_rinit : string; gs_rets : list string;
+  gs_put_on_err : string }.  (* "": the new fid is not given back; "always": fidPool.Put(id); "refused": releaseFID(id, err) *)
 
 Record gmethod := mkgm {
   gm_name : string; gm_params : list string;
@@ -561,7 +632,12 @@ Record gmethod := mkgm {
   gm_text : list string }.    (* statements kept as text (compositions of other methods) *)
 
 `)
-	fmt.Fprintf(&b, "Definition sendrecv_withdraws : bool := %v.\n\n", wd)
+	fmt.Fprintf(&b, "(* sendRecv: pending[t] = resp happens before send; a failed send withdraws the entry and drains done;\n   the withdrawn response is not returned to responsePool.  handleOne completes only the response the lookup accepted.\n   releaseFID puts the fid back only when the error is a linux.Errno (Rlerror). *)\n")
+	fmt.Fprintf(&b, "Definition sendrecv_registers_before_send : bool := %v.\n", regFirst)
+	fmt.Fprintf(&b, "Definition sendrecv_withdraws : bool := %v.\n", wd)
+	fmt.Fprintf(&b, "Definition sendrecv_keeps_withdrawn : bool := %v.\n", keep)
+	fmt.Fprintf(&b, "Definition handleone_checks_found : bool := %v.\n", chk)
+	fmt.Fprintf(&b, "Definition release_fid_policy : string := %s.\n\n", cgQ(rel))
 	b.WriteString("Definition methods : list gmethod := [\n")
 	for i, m := range ms {
 		var ps, ss, ts []string
@@ -582,7 +658,7 @@ Record gmethod := mkgm {
 			for _, x := range s.rets {
 				rs = append(rs, cgQ(x))
 			}
-			ss = append(ss, fmt.Sprintf("mkgs (%s) %s [%s] %s %s [%s] %v", cond, cgQ(s.tname), strings.Join(fs, "; "), cgQ(s.rname), cgQ(s.rinit), strings.Join(rs, "; "), s.putErr))
+			ss = append(ss, fmt.Sprintf("mkgs (%s) %s [%s] %s %s [%s] %v", cond, cgQ(s.tname), strings.Join(fs, "; "), cgQ(s.rname), cgQ(s.rinit), strings.Join(rs, "; "), cgQ(s.putErr)))
 		}
 		for _, t := range m.text {
 			ts = append(ts, cgQ(t))
